@@ -5,7 +5,7 @@
 use super::*;
 use crate::AccessQuad;
 
-// @h props=C09,C04:t tier=quick family=T mem=20 timeout=2400 role=prefetchsupport.small
+// @h props=C09 tier=thorough family=T optional=yes mem=45 timeout=3600 role=prefetchsupport.small
 // @bound PrefetchSupport::new(qv, 11) on 3 symbolic symbols; approx_rank_unchecked for every symbol and every position 0..=3: no panic (the inner rank1 is Some), result 0 (no multiple of 2048 reached)
 // @funcs PrefetchSupport::new, PrefetchSupport::approx_rank_unchecked, RSNarrow::new, RSNarrow::rank1
 #[kani::proof]
@@ -45,3 +45,87 @@ fn c09_pfs_n2049() {
     core::mem::forget(pfs);
     core::mem::forget(qv);
 }
+
+/// occurrences of c among the first `upto` symbols
+fn occ(raw: &[u8; 6], n: usize, c: u8, upto: usize) -> usize {
+    let mut k = 0;
+    let mut j = 0;
+    while j < 6 {
+        if j < n && j < upto && (raw[j] & 3) == c {
+            k += 1;
+        }
+        j += 1;
+    }
+    k
+}
+
+macro_rules! pfs_small_rate {
+    ($name:ident, $n:expr, $shift:expr) => {
+        #[kani::proof]
+        #[kani::unwind(10)]
+        fn $name() {
+            // the sampling logic is generic in the rate: with rate 2^shift = 2 or 4 every block boundary
+            // (n a multiple of the rate, n-1 a multiple, ...) is reached with a handful of symbols
+            let raw: [u8; 6] = kani::any();
+            let n: usize = $n;
+            let qv: QVector = raw[..n].iter().copied().collect();
+            let pfs = PrefetchSupport::new(&qv, $shift);
+            let c: u8 = kani::any();
+            kani::assume(c < 4);
+            let i: usize = kani::any();
+            kani::assume(i <= n);
+            let r = unsafe { pfs.approx_rank_unchecked(c, i) }; // must not panic: the inner rank1 is Some
+            assert!(r % (1usize << $shift) == 0);
+            assert!(r <= occ(&raw, n, c, i + 1));
+            kani::cover!(r > 0, "at least one sampling period counted");
+            kani::cover!(i == n, "position == length");
+            core::mem::forget(pfs);
+            core::mem::forget(qv);
+        }
+    };
+}
+// @h props=C09 tier=thorough family=T optional=yes mem=45 timeout=3600 role=prefetchsupport.rate2.n4
+// @bound PrefetchSupport::new(qv, 1) (sampling period 2) on 4 symbolic symbols (length a multiple of the period): approx_rank_unchecked for every symbol and position 0..=4 never panics, is a multiple of the period and <= rank(c, i+1)
+// @funcs PrefetchSupport::new, PrefetchSupport::approx_rank_unchecked, RSNarrow::new, RSNarrow::rank1
+pfs_small_rate!(c09_pfs_rate2_n4, 4, 1);
+// @h props=C09 tier=thorough family=T optional=yes mem=30 timeout=3600 role=prefetchsupport.rate2.n5
+// @bound PrefetchSupport::new(qv, 1) on 5 symbolic symbols (length-1 a multiple of the period)
+// @funcs PrefetchSupport::new, PrefetchSupport::approx_rank_unchecked
+pfs_small_rate!(c09_pfs_rate2_n5, 5, 1);
+// @h props=C09 tier=thorough family=T optional=yes mem=30 timeout=3600 role=prefetchsupport.rate4.n4
+// @bound PrefetchSupport::new(qv, 2) (sampling period 4) on 4 symbolic symbols
+// @funcs PrefetchSupport::new, PrefetchSupport::approx_rank_unchecked
+pfs_small_rate!(c09_pfs_rate4_n4, 4, 2);
+
+macro_rules! pfs_concrete {
+    ($name:ident, $n:expr, $shift:expr, $sym:expr) => {
+        #[kani::proof]
+        #[kani::unwind(10)]
+        fn $name() {
+            // concrete contents (all symbols equal to $sym), symbolic query
+            let raw: [u8; $n] = [$sym; $n];
+            let qv: QVector = raw.iter().copied().collect();
+            let pfs = PrefetchSupport::new(&qv, $shift);
+            let c: u8 = kani::any();
+            kani::assume(c < 4);
+            let i: usize = kani::any();
+            kani::assume(i <= $n);
+            let r = unsafe { pfs.approx_rank_unchecked(c, i) };
+            assert!(r % (1usize << $shift) == 0);
+            let next = if c == $sym { if i + 1 <= $n { i + 1 } else { $n } } else { 0 };
+            assert!(r <= next);
+            kani::cover!(r > 0, "at least one sampling period counted");
+            kani::cover!(i == $n, "position == length");
+            core::mem::forget(pfs);
+            core::mem::forget(qv);
+        }
+    };
+}
+// @h props=C09 tier=thorough family=T optional=yes mem=30 timeout=3600 role=prefetchsupport.concrete.rate2.n4
+// @bound PrefetchSupport::new(qv, 1) (sampling period 2) on the concrete vector [1,1,1,1] (length a multiple of the period); approx_rank_unchecked for every symbol and every position 0..=4 (symbolic): no panic, multiple of the period, <= rank(c, i+1)
+// @funcs PrefetchSupport::new, PrefetchSupport::approx_rank_unchecked, RSNarrow::new, RSNarrow::rank1
+pfs_concrete!(c09_pfs_concrete_rate2_n4, 4, 1, 1);
+// @h props=C09 tier=thorough family=T optional=yes mem=30 timeout=3600 role=prefetchsupport.concrete.rate2.n5
+// @bound PrefetchSupport::new(qv, 1) on the concrete vector [2,2,2,2,2] (length-1 a multiple of the period)
+// @funcs PrefetchSupport::new, PrefetchSupport::approx_rank_unchecked
+pfs_concrete!(c09_pfs_concrete_rate2_n5, 5, 1, 2);
